@@ -1,0 +1,19 @@
+//go:build verif
+
+package dir_utils
+
+// Contracts for the working-directory helpers Generator.Persist resolves relative file names with (property C19:
+// every file is written under its own path). Comment-only file, read by /verif/engine (govc).
+
+// With a global working directory set, Getwd answers with the path from the process's current directory to the
+// directory that is set NOW (not one that was set earlier); without one, with the process's current directory.
+//@ func Getwd() (string, error)
+//@   ensures globalwd == "" ==> ncalls("os.Getwd") == 1 && result0 == callret("os.Getwd", 0) && ncalls("filepath.Rel") == 0
+//@   ensures globalwd != "" && result1 == nil ==> ncalls("os.Getwd") == 1 && ncalls("filepath.Rel") == 1 && callarg("filepath.Rel", 0) == callret("os.Getwd", 0) && callarg("filepath.Rel", 1) == globalwd && result0 == callret("filepath.Rel", 0)
+
+//@ func SetGlobalwd(wd string)
+//@   ensures globalwd == wd
+//@   modifies globalwd
+
+//@ func HasGlobalWd() bool
+//@   ensures result == (globalwd != "")
